@@ -37,6 +37,10 @@ type c10Req struct {
 	FollowUp *c10Req
 	// MustHaveWhy describes the scenario of a MustHave check
 	MustHaveWhy string
+	// EmptySess: a client without a session presents the session cookie with an
+	// empty value; WSOpen: the request is a websocket-shim open for ws://Host/Path
+	EmptySess bool
+	WSOpen    bool
 }
 
 // worldC10: session tracking against an independent cookie jar per modelled session.
@@ -55,6 +59,9 @@ func worldC10(w *World) {
 	// with a (large) banner configured, HTML navigations are answered with a frame page
 	// that is written through the session layer
 	bigBanner := t.Rare(1, 3, "bigbanner")
+	// with the websocket shim mounted, a shimmed open must carry the session's cookies
+	// for the websocket's own URL
+	shimOn := t.Rare(1, 3, "shim")
 	timeout := []time.Duration{12 * time.Hour, time.Hour, 10 * time.Minute}[t.Choice(3, "timeout")]
 	// the registrable domain sits under a one-label or a two-label public suffix
 	suffix := []string{"test", "co.uk"}[t.Choice(2, "suffix")]
@@ -97,6 +104,11 @@ func worldC10(w *World) {
 		r.Gap = []time.Duration{0, 0, 2 * time.Second, 7 * time.Second, 100 * time.Second}[t.Choice(5, "gap")]
 		r.Interim = t.Rare(1, 5, "interim")
 		r.DupSess = t.Pick("dupsess", 6, 1, 1)
+		r.EmptySess = t.Rare(1, 6, "emptysess")
+		r.WSOpen = shimOn && t.Rare(1, 4, "wsopen")
+		if r.WSOpen {
+			r.Set = nil // (the handshake is not completed, nothing it sets would be kept)
+		}
 		if t.Rare(1, 4, "followup") {
 			r.FollowUp = &c10Req{Browser: r.Browser, Host: r.Host, Path: paths[t.Choice(len(paths), "fpath")]}
 		}
@@ -155,7 +167,11 @@ func worldC10(w *World) {
 			var b int
 			fmt.Sscanf(r.Header.Get("X-Browser"), "%d", &b)
 			burstReq := r.Header.Get("X-Burst") == "1"
-			u := &url.URL{Scheme: "https", Host: r.Host, Path: r.URL.Path}
+			host := r.Host
+			if h := r.Header.Get("X-Ws-Host"); h != "" {
+				host = h // a shimmed websocket handshake arrives with the backend's own address as Host
+			}
+			u := &url.URL{Scheme: "https", Host: host, Path: r.URL.Path}
 			mu.Lock()
 			br := browsers[b]
 			hadSession := r.Header.Get("X-Had-Session") == "1"
@@ -261,6 +277,9 @@ func worldC10(w *World) {
 	if noSSL {
 		args = append(args, "-disable-ssl-for-test")
 	}
+	if shimOn {
+		args = append(args, "-shim-websockets", "-shim-path=shim")
+	}
 	if bigBanner {
 		args = append(args, "-inject-banner=<div>"+strings.Repeat("banner ", 30000)+"</div>", "-banner-height=40px")
 	}
@@ -270,6 +289,11 @@ func worldC10(w *World) {
 	do = func(cl *http.Client, r c10Req) {
 		br := browsers[r.Browser]
 		req, _ := http.NewRequest("GET", "http://proxy:80"+r.Path, nil)
+		if r.WSOpen {
+			req, _ = http.NewRequest("POST", "http://proxy:80/shim/open", strings.NewReader("ws://"+r.Host+r.Path))
+			req.Header.Set("X-Ws-Host", r.Host)
+			w.Probe("shimmed_websocket_open_in_a_session")
+		}
 		req.Host = r.Host
 		req.Header.Set("X-Browser", fmt.Sprint(r.Browser))
 		for _, s := range r.Set {
@@ -301,6 +325,10 @@ func worldC10(w *World) {
 			cs = append(cs, "psess="+sess)
 			req.Header.Set("X-Had-Session", "1")
 		}
+		if sess == "" && r.EmptySess {
+			cs = append(cs, "psess=")
+			w.Probe("empty_session_cookie_presented")
+		}
 		cs = append(cs, br.own...)
 		if sess != "" && r.DupSess == 1 {
 			cs = append(cs, "psess="+sess)
@@ -320,7 +348,7 @@ func worldC10(w *World) {
 			w.Violation("progress", "a request through the session handler failed | %v", err)
 			return
 		}
-		if resp.StatusCode != 200 {
+		if resp.StatusCode != 200 && !r.WSOpen {
 			w.Violation("progress", "a request through the session handler was answered %d", resp.StatusCode)
 		}
 		defer func() {
